@@ -3,7 +3,7 @@
 
   T10.1  inversion modulo 2^k (all widths `w`, i.e. all limb counts `w = 64·LIMBS`)      — full
   T10.2  `inv_mod` for `m = s·2^k` (CRT recombination), given the odd-modulus inverter spec   — full
-         (+ proved negation for modulus 0: the fixed-width form panics — DESIGN §7 row 8)
+         (+ modulus 0: both forms answer `none` — DESIGN §7 row 8, repaired by /repo be88d84)
   T10.3  `gcd = 2^k · gcd(f, g)` incl. zeros, given the odd-operand gcd spec                   — full
   T10.4  safegcd: (a) `UnsatInt` 62-bit <-> 64-bit limb conversions value preserving, mutually inverse — full;
          (b) `inv_mod2_62` — full; (c) `jump`: matrix identity, det, no wrap, termination in
@@ -12,7 +12,8 @@
          (e) loop invariant through ANY number of trips (oddness, gcd, size of `f, g`; range and Bézout
              congruences of `d, e`), and from `g = 0`: `|f| = gcd`, `norm(d)` is the inverse in `[0, M)`,
              `is_some ↔ f = ±1 ↔ gcd = 1`, read back through `to_uint` — full, GIVEN `g = 0`:
-             `safegcd_inv_partial`, `safegcd_inv_vartime_partial`, `safegcd_gcd_partial`
+             `safegcd_inv_partial`, `safegcd_inv_vartime_partial`, `safegcd_gcd_partial`,
+             `safegcd_gcd_any_f_partial` (even `f`, odd `g`), and composed with T10.3: `uint_gcd_partial`
          (f) `H_divsteps_done` (the fixed trip count `iterations(..)` reaches `g = 0`; for the vartime
              loop: it ends within the model's fuel) — NOT proved; carried as the named hypothesis
   T10.5  Montgomery-form inversion (adjuster `R²`): the retrieved inverse times the retrieved value is 1 — `_partial` (same H)
@@ -23,6 +24,7 @@ import CB.Lemmas.C10Jump
 import CB.Lemmas.C10De
 import CB.Lemmas.C10Conv
 import CB.Lemmas.C10Final
+import CB.Lemmas.C10Even
 namespace CB.P10
 open CB.InvMod2k CB.Gcd CB.SafeGcd
 
@@ -71,6 +73,18 @@ theorem inv_mod2k_variants_agree (w a k : Nat) (hk : k ≤ w) :
         simp [invMod2k]; omega
       simp [h, this]
 
+/-- Beyond the property's `k ≤ BITS` (since /repo 8dd1192 `inv_mod2k_vartime` no longer panics there):
+    for every `k ≥ BITS` the fixed and boxed vartime forms still agree with `inv_mod2k` — the rounds
+    `i ≥ BITS` contribute nothing, all return the inverse modulo `2^BITS`. -/
+theorem inv_mod2k_variants_agree_beyond (w a k : Nat) (hk : w ≤ k) :
+    invMod2kVartime w a k = some (invMod2k w a k) ∧
+    invMod2kVartimeBoxed w a k = invMod2k w a k := by
+  have hc := ct_eq_ref_beyond (a := a) hk
+  refine ⟨?_, ?_⟩
+  · unfold invMod2kVartime; rw [vt_eq_ref_beyond hk]; simp only []
+    rw [← hc]; rfl
+  · unfold invMod2kVartimeBoxed; rw [vtBoxed_eq_ref_beyond hk, ← hc]; rfl
+
 /-- non-vacuity: a 2-limb odd value inverted modulo 2^100 -/
 example : (invMod2k 128 0xfffffffffffffffffffffffefffffc2f 100).2 = true ∧
     (0xfffffffffffffffffffffffefffffc2f * (invMod2k 128 0xfffffffffffffffffffffffefffffc2f 100).1) % 2 ^ 100 = 1 := by
@@ -80,39 +94,53 @@ example : (invMod2k 128 0xfffffffffffffffffffffffefffffc2f 100).2 = true ∧
 /-! ## T10.2 — `Uint::inv_mod` / `BoxedUint::inv_mod`: CRT recombination for `m = s·2^k`
 
 The odd-modulus inverter (`inv_odd_mod`, safegcd — T10.4) enters as the hypothesis
-`OddInvSpec inv w`: for odd `s < 2^w`, `inv a s = some x` iff `gcd(a, s) = 1`, and then `x < s`,
+`OddInvSpec inv w`: for odd `s < 2^w`, `inv a s = some x` iff `gcd(a, s) = 1`, and then `x < s` (for the unit
+modulus `s = 1` also `x = 1` is admitted: the real inverter returns 1 for `a = 1`, `s = 1`),
 `a·x ≡ 1 (mod s)`.  Callee exactness (`wrapping_mul/sub/add`, shifts, `trailing_zeros`) is C03–C05. -/
 
 /-- for every modulus `1 ≤ m < 2^BITS` and every `a`: never panics, `is_some ↔ gcd(a, m) = 1`,
-    and then `x < m` (also for `m = 1`) and `a·x ≡ 1 (mod m)`. -/
+    and then `x < m` for `m ≥ 2` (the property's range clause; for `m = 1` the code may return 0 or 1)
+    and `a·x ≡ 1 (mod m)`. -/
 theorem inv_mod_crt (inv : Nat → Nat → Option Nat) (w a m : Nat) (H : OddInvSpec inv w)
     (ha : a < 2 ^ w) (hm0 : 0 < m) (hm : m < 2 ^ w) :
     match invModWith inv w a m with
-    | R.some x => Nat.gcd a m = 1 ∧ x < m ∧ a * x ≡ 1 [MOD m]
+    | R.some x => Nat.gcd a m = 1 ∧ (2 ≤ m → x < m) ∧ x ≤ m ∧ a * x ≡ 1 [MOD m]
     | R.none => Nat.gcd a m ≠ 1
-    | R.panic => False :=
-  invModWith_spec inv w a m H ha hm0 hm
+    | R.panic => False := by
+  have := invModWith_spec inv w a m H ha hm0 hm
+  cases h : invModWith inv w a m with
+  | some x =>
+    rw [h] at this
+    obtain ⟨g, b, c⟩ := this
+    exact ⟨g, fun h2 => by omega, by omega, c⟩
+  | none => rw [h] at this; exact this
+  | panic => rw [h] at this; exact this
 
 /-- the boxed duplicate (equal precisions) -/
 theorem boxed_inv_mod_crt (inv : Nat → Nat → Option Nat) (w a m : Nat) (H : OddInvSpec inv w)
     (ha : a < 2 ^ w) (hm0 : 0 < m) (hm : m < 2 ^ w) :
     match invModBoxedWith inv w a m with
-    | R.some x => Nat.gcd a m = 1 ∧ x < m ∧ a * x ≡ 1 [MOD m]
+    | R.some x => Nat.gcd a m = 1 ∧ (2 ≤ m → x < m) ∧ x ≤ m ∧ a * x ≡ 1 [MOD m]
     | R.none => Nat.gcd a m ≠ 1
-    | R.panic => False :=
-  invModBoxedWith_spec inv w a m H ha hm0 hm
+    | R.panic => False := by
+  have := invModBoxedWith_spec inv w a m H ha hm0 hm
+  cases h : invModBoxedWith inv w a m with
+  | some x =>
+    rw [h] at this
+    obtain ⟨g, b, c⟩ := this
+    exact ⟨g, fun h2 => by omega, by omega, c⟩
+  | none => rw [h] at this; exact this
+  | panic => rw [h] at this; exact this
 
-/- FULL STATEMENT (unproved, FALSE of the code): the option-returning `Uint::inv_mod` is total,
-   i.e. `invModWith inv w a 0 = R.none`.  The proved negation: -/
+/-- DESIGN §7 row 8, after the repair /repo be88d84 (`.expect("inverse mod 2^k exists")` →
+    `.unwrap_or(ZERO)`): the option-returning `Uint::inv_mod` is total — with modulus 0 (`s = 0`,
+    `k = BITS`) it answers `none` for every `a` and every inverter.  (Before the repair the model proved
+    `R.panic` here; modulus 0 is outside C10's domain `m ≥ 1`, totality is C11's.) -/
+theorem inv_mod_zero_modulus_none (inv : Nat → Nat → Option Nat) (w a : Nat) :
+    (match invModWith inv w a 0 with | R.none => True | _ => False) :=
+  invModWith_zero_modulus inv w a
 
-/-- DESIGN §7 row 8: with modulus 0 the fixed-width `inv_mod` reaches
-    `s.inv_mod2k(k).expect("inverse mod 2^k exists")` with `s = 0`, `k = BITS`: it panics for
-    every `a` and every inverter. -/
-theorem inv_mod_zero_modulus_panics (inv : Nat → Nat → Option Nat) (w a : Nat) (hw : 0 < w) :
-    (match invModWith inv w a 0 with | R.panic => True | _ => False) :=
-  invModWith_zero_modulus inv w a hw
-
-/-- … while `BoxedUint::inv_mod(a, 0)` answers `none`. -/
+/-- … and so does `BoxedUint::inv_mod(a, 0)`. -/
 theorem boxed_inv_mod_zero_modulus_none (inv : Nat → Nat → Option Nat) (w a : Nat) :
     (match invModBoxedWith inv w a 0 with | R.none => True | _ => False) :=
   invModBoxedWith_zero_modulus inv w a
@@ -317,7 +345,7 @@ theorem safegcd_inv_vartime_partial (sat : Nat) (hsat : 1 ≤ sat)
 
 /-- `SafeGcdInverter::gcd(f, g)` / `gcd_vartime` with an ODD `f` (`Odd<Uint>::gcd_vartime`, `Uint::gcd` when
     it hands over an odd `f`): the mathematical gcd, for every `g` including 0.
-    (Not covered: `Uint::gcd` handing over an EVEN `f` with an odd `g` — the first divstep swaps; see notes.) -/
+    (`Uint::gcd` handing over an EVEN `f` with an odd `g`: `safegcd_gcd_any_f_partial` below.) -/
 theorem safegcd_gcd_partial (vartime : Bool) (sat : Nat) (hsat : 1 ≤ sat)
     (fw gw : List Nat) (hfw : CB.WF fw) (hgw : CB.WF gw) (lf : fw.length = sat) (lg : gw.length = sat)
     (hodd : CB.val fw % 2 = 1)
@@ -325,6 +353,41 @@ theorem safegcd_gcd_partial (vartime : Bool) (sat : Nat) (hsat : 1 ≤ sat)
     (gcdFixed vartime sat fw gw).negative = false ∧
     CB.val (gcdFixed vartime sat fw gw).value = Nat.gcd (CB.val fw) (CB.val gw) :=
   gcd_fixed_spec vartime sat hsat fw gw hfw hgw lf lg hodd H_divsteps_done
+
+/-- … and with an ODD `g` and `f` of ANY parity — what `Uint::gcd` hands over when `s2` is even
+    (`delta = 1 > 0` and `g` odd: the first divstep swaps, `f` is odd from then on). -/
+theorem safegcd_gcd_any_f_partial (vartime : Bool) (sat : Nat) (hsat : 1 ≤ sat)
+    (fw gw : List Nat) (hfw : CB.WF fw) (hgw : CB.WF gw) (lf : fw.length = sat) (lg : gw.length = sat)
+    (hodd : CB.val gw % 2 = 1)
+    (H_divsteps_done : (gcdFixed vartime sat fw gw).gZero = true) :
+    (gcdFixed vartime sat fw gw).negative = false ∧
+    CB.val (gcdFixed vartime sat fw gw).value = Nat.gcd (CB.val fw) (CB.val gw) :=
+  gcd_fixed_spec_pos vartime sat hsat fw gw hfw hgw lf lg hodd H_divsteps_done
+
+/-- T10.3 + T10.4 composed: `Uint::<n>::gcd(a, b)` — the reduction by the common power of two with the
+    safegcd instance `SafeGcdInverter::<n, _>::gcd` plugged in (`CB.Gcd.uintGcd`, the function the driver
+    runs as L1) — is `Nat.gcd a b` for ALL `a, b < 2^(64n)`, zeros included; the only hypothesis left is
+    `H_divsteps_done` for the operand pairs handed to safegcd. -/
+theorem uint_gcd_partial (n : Nat) (hn : 1 ≤ n)
+    (H_divsteps_done : ∀ f g, f < 2 ^ (64 * n) → g < 2 ^ (64 * n) →
+      (gcdFixed false n (CB.toLimbs n f) (CB.toLimbs n g)).gZero = true)
+    (a b : Nat) (ha : a < 2 ^ (64 * n)) (hb : b < 2 ^ (64 * n)) :
+    uintGcd n a b = Nat.gcd a b := by
+  apply gcd_reduction _ (64 * n) a b _ ha hb
+  intro f g hf hg hor
+  have e64 : (2 : Nat) ^ (64 * n) = CB.B ^ n := by rw [CB.B_def, pow_mul]; norm_num
+  have vf : CB.val (CB.toLimbs n f) = f := by
+    rw [CB.val_toLimbs, Nat.mod_eq_of_lt (by rw [← e64]; exact hf)]
+  have vg : CB.val (CB.toLimbs n g) = g := by
+    rw [CB.val_toLimbs, Nat.mod_eq_of_lt (by rw [← e64]; exact hg)]
+  show CB.val (gcdFixed false n (CB.toLimbs n f) (CB.toLimbs n g)).value = Nat.gcd f g
+  rcases hor with ho | ho
+  · have := (safegcd_gcd_partial false n hn _ _ (CB.toLimbs_WF n f) (CB.toLimbs_WF n g)
+      (CB.toLimbs_length n f) (CB.toLimbs_length n g) (by rw [vf]; exact ho) (H_divsteps_done f g hf hg)).2
+    rw [this, vf, vg]
+  · have := (safegcd_gcd_any_f_partial false n hn _ _ (CB.toLimbs_WF n f) (CB.toLimbs_WF n g)
+      (CB.toLimbs_length n f) (CB.toLimbs_length n g) (by rw [vg]; exact ho) (H_divsteps_done f g hf hg)).2
+    rw [this, vf, vg]
 
 /-! ## T10.6 — constant-time and vartime forms agree (given `H_divsteps_done` for both) -/
 
